@@ -134,8 +134,12 @@ def mon_c08(sc, prof, pairs):
     """struct destructor runs: same multiset per step as Vec<T>"""
     out = []
     for i, s in pairs:
-        ti = sorted(e for e in parse_ev(i.get("ev", "[]")) + parse_ev(i.get("rev", "[]")) if e.startswith("T"))
-        ts = sorted(e for e in parse_ev(s.get("ev", "[]")) + parse_ev(s.get("rev", "[]")) if e.startswith("T"))
+        # (a pointer write reports the events of the write itself inside its result: `written:<old>:wev=[...]`)
+        def wev(o):
+            m = re.search(r"wev=(\[[^\]]*\])", o.get("ret", "") or "")
+            return parse_ev(m.group(1)) if m else []
+        ti = sorted(e for e in parse_ev(i.get("ev", "[]")) + parse_ev(i.get("rev", "[]")) + wev(i) if e.startswith("T"))
+        ts = sorted(e for e in parse_ev(s.get("ev", "[]")) + parse_ev(s.get("rev", "[]")) + wev(s) if e.startswith("T"))
         if ti != ts:
             op = op_of(sc, i["step"])
             out.append(Failure(sc, prof, i["step"], f"struct destructor runs: soa={ti} std={ts}", f"C08:{op}:dropT", {"I": i["raw"], "S": s["raw"]}))
@@ -190,6 +194,7 @@ def mon_c12(sc, prof, pairs):
         line = sc.lines[int(i["step"])]
         w = line.split()
         op = w[0]
+        if op in ("treserve", "treserve_exact", "tshrink_to_fit", "tcapacity", "twith_capacity"): op = op[1:]   # through the SoAVec trait
         if op == "capacity" and i["status"] != "ok":
             out.append(Failure(sc, prof, i["step"], f"capacity() panicked", "C12:capacity:panic", {"I": i["raw"]}))
         if op == "promise":
@@ -535,18 +540,24 @@ def still_fails(prop, sc, prof, monitors, key):
     return None
 
 
+# operations that establish the precondition under which a later step is judged: a minimised scenario must keep them
+# (a `promise` is only a promise after the reservation that made it)
+PROTECTED_OPS = {"C12": {"reserve", "reserve_exact", "with_capacity", "treserve", "treserve_exact", "twith_capacity"}}
+
+
 def minimise(prop, failure, monitors, budget=200):
     sc = failure.scenario
     best = failure
     lines = list(sc.lines)
+    protected = PROTECTED_OPS.get(prop, set())
     n = 2
     runs = 0
     while len(lines) >= 2 and runs < budget:
         chunk = max(1, len(lines) // n)
         reduced = False
         for start in range(0, len(lines), chunk):
-            cand = lines[:start] + lines[start + chunk:]
-            if not cand: continue
+            cand = lines[:start] + [l for l in lines[start:start + chunk] if l.split()[0] in protected] + lines[start + chunk:]
+            if not cand or len(cand) == len(lines): continue
             runs += 1
             f = still_fails(prop, Scenario(sc.shape, cand, sc.tag), failure.profile, monitors, failure.key)
             if f:
